@@ -22,7 +22,7 @@ LEVEL = "exploration"
 RULE = (
     "read histories over {? (explicit), _ + ∇ $ (implicit pops of arity 1-3), literals, W, print} at top level and inside "
     "λ (arity 0-3, called with † and ß), named functions (numeric and named parameters), nested two deep, plus map lambdas; "
-    "all input lists of length 0..4 of unique values; exhaustive over a 9-symbol alphabet up to length 4 (quick) / 5 (thorough) "
+    "all input lists of length 0..4 of unique values; exhaustive over a 10-symbol alphabet up to length 4 (quick) / 5 (thorough) "
     "and random histories up to length 12; distinct_nontrivial = distinct (program, inputs) whose run delivered at least one read"
 )
 ASSUMPTIONS = [
@@ -46,6 +46,7 @@ ALPHABET = [
     [["lam", 1, [["el", "_"], ["el", "+"], ["el", "?"], ["el", "+"]]], ["el", "†"]],
     [["lam", 2, [["el", "∇"], ["el", "+"], ["el", "+"]]], ["el", "†"]],
     [["call", "f"]],
+    [["lam", 1, [["num", 9], ["brk"], ["el", "?"]]], ["el", "†"]],
 ]
 PRELUDE = [["def", "f", [2], [["el", "_"], ["el", "_"], ["el", "+"], ["el", "?"]]]]
 
@@ -94,6 +95,8 @@ def rnd_ops(r, depth, lazy=False, in_fn=False):
             out.append(["el", "?"])
         elif x < 0.55:
             out.append(["el", r.choice(["_", "+", "∇", "$", "+", "_"])])
+        elif x < 0.60 and in_fn and not lazy:
+            out.append(["brk"])   # early return: the call's input scope must be dropped
         elif x < 0.65:
             out.append(["num", r.randint(1, 9)])
         elif x < 0.70 and not lazy:
@@ -264,4 +267,4 @@ def classify(w):
 
 
 def finalize(agg, tier):
-    return {"exhaustive_part": "all histories over the 9-symbol alphabet up to length %d x 7 input lists" % (4 if tier == "quick" else 5)}
+    return {"exhaustive_part": "all histories over the 10-symbol alphabet up to length %d x 7 input lists" % (4 if tier == "quick" else 5)}
